@@ -1,8 +1,8 @@
 #!/verif/.venv/bin/python
 # Replay of a solver counterexample against the unmodified code (no shims).
-# property=C01 kernel=slm label=slm:masked_add_is_accepted
+# property=C01 kernel=seq label=seq:every_scheduled_eom_slot_within_limits
 import sys
 sys.path[:0] = ['/repo' + "/pulser-core", '/repo' + "/pulser-simulation", "/verif"]
 from symx.replay import replay
-sys.exit(replay(check='checks.c01', kernel='slm', shape={'order': 'mask_first', 'masked': ['q0', 'q1'], 'rem': 0},
-                assignment={'amp': '884279719932928947946915/140737488496065488355328', 'dur/k': 2}, label='slm:masked_add_is_accepted'))
+sys.exit(replay(check='checks.c01', kernel='seq', shape={'device': 'virt', 'call': 'eom_det', 'prior': False, 'rem': 0},
+                assignment={'dur/k': 2, 'amp': '1/1024', 'det': -20000000000, 'det_on': '-257359/1024'}, label='seq:every_scheduled_eom_slot_within_limits'))
